@@ -80,7 +80,10 @@ func VerifC05_ContainerMounts() {
 	sym.Intercept("os.Remove", func(p string) error { removed = append(removed, p); return nil })
 	sym.Intercept("os.Symlink", func(o, n string) error { symlinks = append(symlinks, n); return nil })
 	sym.Intercept("syscall.Chdir", func(p string) error { return nil })
-	sym.Intercept("syscall.PivotRoot", func(newroot, putold string) error { pivoted = newroot == "/newroot" && putold == "old_root"; return nil })
+	sym.Intercept("syscall.PivotRoot", func(newroot, putold string) error {
+		pivoted = newroot == "/newroot" && putold == "old_root"
+		return nil
+	})
 	sym.Intercept("syscall.Unmount", func(t string, flags int) error {
 		if t == "old_root" && flags&syscall.MNT_DETACH != 0 {
 			detached = true
